@@ -147,7 +147,7 @@ def _emit_asm(inst, ins, asm):
     def begin(desc):
         if vis:
             inst.yield_point(desc)
-            if inst.resumable and em.tso:
+            if inst.resumable and inst.tso_here():
                 body.append('rt_sb_drain(%d);' % slot)
 
     if mn == 'xchg':
